@@ -40,7 +40,8 @@ static std::string scn_text(const Scn &s) {
     return t;
 }
 
-static size_t pair_req_len(int i) { return std::string("GET /a" + std::to_string(i) + "z HTTP/1.1\r\nHost: h.example\r\n\r\n").size(); }
+// offset (within the payload) just behind tagged request a<i>: the requests are found in the payload text itself (their targets may be padded)
+static size_t pair_req_end(const std::string &pay, int i) { size_t a = pay.find("GET /a" + std::to_string(i) + "z"); if (a == std::string::npos) return pay.size(); size_t e = pay.find("\r\n\r\n", a); return e == std::string::npos ? pay.size() : e + 4; }
 struct Tags { std::vector<std::string> completes; };
 static thread_local Tags *g_tags;
 
@@ -109,7 +110,7 @@ static std::pair<std::string, std::string> run_scn(const Scn &s) {
     // (a response chunk may reach beyond the CONNECT response into the answers to payload requests: those requests are put on the wire first)
     auto need_for_next_res_chunk = [&]() -> size_t { if (s.expect_tunnel || si >= sch.size() || soff + sch[si].size() <= res_head_end) return 0; size_t rel_end = soff + sch[si].size() - res_head_end; int k = -1;
         for (int i = 0; i < s.n_after; i++) { size_t st = s.res_pay.find("HTTP/1.1 200 OK\r\nX-Pair: a" + std::to_string(i) + "z"); if (st != std::string::npos && st < rel_end) k = i; }
-        size_t need = head_end + (k >= 0 ? (size_t)s.lead : 0); for (int i = 0; i <= k; i++) need += pair_req_len(i); return need; };
+        size_t need = head_end + (k >= 0 ? pair_req_end(s.pay, k) : 0); return need; };
     while (si < sch.size() && soff < res_head_end) { size_t need = need_for_next_res_chunk(); while (qoff < need && qi < qch.size()) do_req(false); do_res(false); if (!qpend.empty()) do_req(true); if (!spend.empty()) do_res(true); }
     // phase C: the rest; server-side bytes beyond the response only once TUNNEL has been seen (or when HTTP traffic is expected)
     int guard = 0;
@@ -121,7 +122,7 @@ static std::pair<std::string, std::string> run_scn(const Scn &s) {
             // legal interleaving: no byte of the response to payload request a_k is offered before every byte of that request was offered to the parser at least once
             size_t rel_end = soff + sch[si].size() - res_head_end; int k = -1; // the last pair whose response has any byte in this chunk
             for (int i = 0; i < s.n_after; i++) { size_t st = s.res_pay.find("HTTP/1.1 200 OK\r\nX-Pair: a" + std::to_string(i) + "z"); if (st != std::string::npos && st < rel_end) k = i; }
-            size_t need = head_end + (k >= 0 ? (size_t)s.lead : 0); for (int i = 0; i <= k; i++) need += pair_req_len(i);
+            size_t need = head_end + (k >= 0 ? pair_req_end(s.pay, k) : 0);
             if (qoff < need && qi < qch.size()) res_allowed = false; // offered (on the wire), not necessarily consumed yet: the parser may still hold the request side back with DATA_OTHER
         }
         if (res_allowed && (si < sch.size() || !spend.empty())) progressed |= do_res(false);
@@ -152,6 +153,8 @@ static std::pair<std::string, std::string> run_scn(const Scn &s) {
                 if (w == "cx") { bool must = s.payload == 0 || !(s.status >= 200 && s.status <= 299); // a 2xx CONNECT without client payload stays open
                     if (cnt > 1 || (must && cnt != 1)) fail("connect_transaction_complete_count", "the CONNECT/upgrade transaction was completed " + std::to_string(cnt) + " times"); continue; }
                 if (cnt != 1) { fail("tagged_request_reported_" + std::to_string(cnt) + "_times", "request " + w + " reported complete " + std::to_string(cnt) + " times (skipped or parsed twice)"); break; }
+                { size_t a = rq.find("/" + w + "z"), b = a == std::string::npos ? a : rq.find(' ', a); std::string sent = a == std::string::npos ? "" : rq.substr(a, b - a);
+                  for (auto &g : got) if (g.find("/" + w + "z") != std::string::npos && g.substr(0, g.find('|')) != sent) fail("tagged_request_target_differs", "request " + w + " was sent with target \"" + sent + "\" and reported with \"" + g.substr(0, g.find('|')) + "\""); }
                 for (auto &g : got) if (g.find("/" + w + "z") != std::string::npos && g.find("|" + w + "z") == std::string::npos) fail("response_attached_to_wrong_request", "request " + w + " completed with response tag \"" + g.substr(g.find('|') + 1) + "\"");
                 (void)gi;
             }
@@ -161,7 +164,8 @@ static std::pair<std::string, std::string> run_scn(const Scn &s) {
     return {err, detail};
 }
 
-static std::string pair_req(const std::string &tag) { return "GET /" + tag + "z HTTP/1.1\r\nHost: h.example\r\n\r\n"; }
+// a tagged request; `pad` lengthens the target so that the first line is longer than anything a probe may look at in one piece (the CONNECT probe reads at most 64 bytes)
+static std::string pair_req(const std::string &tag, int pad = 0) { return "GET /" + tag + "z" + (pad > 0 ? "?" + std::string((size_t)pad - 1, 'q') : "") + " HTTP/1.1\r\nHost: h.example\r\n\r\n"; }
 static std::string pair_res(const std::string &tag, int bodylen) { return "HTTP/1.1 200 OK\r\nX-Pair: " + tag + "z\r\nContent-Length: " + std::to_string(bodylen) + "\r\n\r\n" + std::string((size_t)bodylen, 'r'); }
 
 static Scn gen_scn() {
@@ -182,7 +186,7 @@ static Scn gen_scn() {
         s.res_head = "HTTP/1.1 " + std::to_string(s.status) + " X\r\nX-Pair: cxz\r\n" + (s.status == 101 ? std::string("Upgrade: websocket\r\nConnection: Upgrade\r\n") + (s.framed101 ? "Content-Length: 0\r\n" : "") + "\r\n" : "Content-Length: 0\r\n\r\n");
         s.payload = (s.status == 101 && !s.framed101) ? rcx::range(1, 3) : (rcx::coin() ? 0 : 3);
     }
-    if (s.payload == 0) { s.n_after = rcx::range(1, 3); if (s.kind == 0 && s.status >= 200 && s.status <= 299 && rcx::chance(1, 4)) { s.lead = rcx::range(1, 3); for (int i = 0; i < s.lead; i++) s.pay += rcx::coin() ? ' ' : '\t'; } for (int i = 0; i < s.n_after; i++) { s.pay += pair_req("a" + std::to_string(i)); s.res_pay += pair_res("a" + std::to_string(i), rcx::range(0, 4)); } }
+    if (s.payload == 0) { s.n_after = rcx::range(1, 3); if (s.kind == 0 && s.status >= 200 && s.status <= 299 && rcx::chance(1, 4)) { s.lead = rcx::range(1, 3); for (int i = 0; i < s.lead; i++) s.pay += rcx::coin() ? ' ' : '\t'; } for (int i = 0; i < s.n_after; i++) { s.pay += pair_req("a" + std::to_string(i), rcx::chance(1, 2) ? rcx::range(30, 140) : 0); s.res_pay += pair_res("a" + std::to_string(i), rcx::range(0, 4)); } }
     else if (s.payload == 1) { s.pay = std::string("\x16\x03\x01\x00\xa5\x01\x00\x00\xa1\x03\x03", 11); int n = rcx::range(10, 120); for (int i = 0; i < n; i++) s.pay += (char)rcx::range(0, 255); s.pay += '\n'; s.res_pay = std::string("\x16\x03\x03\x00\x31\x02\x00\x00", 8); int m = rcx::range(0, 60); for (int i = 0; i < m; i++) s.res_pay += (char)rcx::range(0, 255); }
     else if (s.payload == 5) { s.pay = std::string(rcx::coin() ? "FOO" : "GETX") + " /x HTTP/1.1\r\nHost: h.example\r\n\r\n"; s.res_pay = "SSH-2.0-x\r\n"; } // looks like HTTP but the first word is no method the library knows: tunnel
     else if (s.payload == 2) { int n = rcx::range(0, 40); for (int i = 0; i < n; i++) { char ch = (char)rcx::range(0x80, 0xff); s.pay += ch; } s.pay += rcx::coin() ? '\n' : '\0'; int m = rcx::range(0, 100); for (int i = 0; i < m; i++) s.pay += (char)rcx::range(0, 255); s.res_pay = "SSH-2.0-x\r\n"; }
@@ -199,7 +203,8 @@ static Scn gen_scn() {
     auto cuts = [&](size_t len, const std::vector<size_t> &bias) { std::vector<size_t> v; int st = rcx::range(0, 3); if (st == 0) { int n = rcx::range(0, 5); for (int i = 0; i < n && len > 1; i++) v.push_back((size_t)rcx::range(1, (int)len - 1)); } else if (st == 1) { size_t step = (size_t)rcx::range(1, 30); if (len > 2000) step = len / (size_t)rcx::range(3, 60); for (size_t p = step; p < len; p += step) v.push_back(p); } else if (st == 2) { for (size_t b : bias) { long d = rcx::range(-4, 4); long p = (long)b + d; if (p > 0 && p < (long)len) v.push_back((size_t)p); } }
         std::sort(v.begin(), v.end()); v.erase(std::unique(v.begin(), v.end()), v.end()); return v; };
     size_t he = s.pre_req.size() + s.head.size();
-    s.qcuts = cuts(rq.size(), {he, he, s.pre_req.size()}); s.scuts = cuts(rs.size(), {s.pre_res.size() + s.res_head.size(), s.pre_res.size() + s.res_head.size() + 6, s.pre_res.size()});
+    s.qcuts = cuts(rq.size(), {he, he, s.pre_req.size(), he + 64, he + 64 + (size_t)s.lead});
+    if (s.payload == 0 && s.kind == 0 && rcx::chance(1, 3)) { size_t c = he + (size_t)rcx::range(60, 68); if (c < rq.size() && std::find(s.qcuts.begin(), s.qcuts.end(), c) == s.qcuts.end()) { s.qcuts.push_back(c); std::sort(s.qcuts.begin(), s.qcuts.end()); } } // a request chunk that ends around the 64th payload byte s.scuts = cuts(rs.size(), {s.pre_res.size() + s.res_head.size(), s.pre_res.size() + s.res_head.size() + 6, s.pre_res.size()});
     // the response stream is always cut at the end of the CONNECT response so that server-side bytes can be held back
     // (only when a tunnel is expected; otherwise a chunk may carry the end of the CONNECT response together with the start of the next one)
     if (s.expect_tunnel || rcx::coin()) { size_t e = s.pre_res.size() + s.res_head.size(); if (e < rs.size() && std::find(s.scuts.begin(), s.scuts.end(), e) == s.scuts.end()) { s.scuts.push_back(e); std::sort(s.scuts.begin(), s.scuts.end()); } }
